@@ -255,7 +255,20 @@ func checkC09(w *World) {
 	}
 	// role: builders called from Pull with the element's attribute list
 	var nsBuilder, attrBuilder *ssa.Function
-	allInstrs(pull, func(in ssa.Instruction) {
+	var earlyScope []*ssa.Function
+	for g := range staticReach(pull, func(x *ssa.Function) bool { return fnPkgKey(x) == "parser" }) {
+		if fnPkgKey(g) == "parser" {
+			earlyScope = append(earlyScope, g)
+		}
+	}
+	sortFuncs(earlyScope)
+	computeEventFns(pull, earlyScope)
+	forEarly := func(visit func(ssa.Instruction)) {
+		for _, g := range earlyScope {
+			allInstrs(g, visit)
+		}
+	}
+	forEarly(func(in ssa.Instruction) {
 		c, ok := in.(*ssa.Call)
 		if !ok {
 			return
@@ -479,7 +492,7 @@ func checkC09(w *World) {
 		if !known {
 			return
 		}
-		if ta.Parent().Signature.Results().Len() != 3 {
+		if !producesEvents(ta.Parent()) {
 			return // a token filter of the adapter (e.g. the XML declaration), not an arm that produces events
 		}
 		found[tok] = true
@@ -499,7 +512,7 @@ func checkC09(w *World) {
 			}
 			for _, in2 := range b.Instrs {
 				ret, ok := in2.(*ssa.Return)
-				if !ok || len(ret.Results) != 3 {
+				if !ok || len(ret.Results) < 2 || len(ret.Results) > 3 {
 					continue
 				}
 				nret++
@@ -528,7 +541,7 @@ func checkC09(w *World) {
 				}
 				endFlag, isC := ret.Results[1].(*ssa.Const)
 				endFalse := isC && endFlag.Value != nil && endFlag.Value.String() == "false"
-				if !okKind || !endFalse || !isNilConst(ret.Results[2]) {
+				if !okKind || !endFalse || (len(ret.Results) == 3 && !isNilConst(ret.Results[2])) {
 					good = false
 				}
 				detail = fmt.Sprintf("returns %s implementing %v, end flag false: %v", mi.X.Type().String(), impl, endFalse)
@@ -547,7 +560,7 @@ func checkC09(w *World) {
 	// end flag true only when all arms failed
 	allScope(func(in ssa.Instruction) {
 		ret, ok := in.(*ssa.Return)
-		if !ok || len(ret.Results) != 3 {
+		if !ok || !producesEvents(in.Parent()) || len(ret.Results) < 2 {
 			return
 		}
 		c, isC := ret.Results[1].(*ssa.Const)
@@ -555,9 +568,6 @@ func checkC09(w *World) {
 			return
 		}
 		failed := 0
-		if in.Parent() != pull && !(len(ret.Results) == 3) {
-			return
-		}
 		for _, a := range scopeGuards(ret.Block(), 0) {
 			if ex, ok := a.V.(*ssa.Extract); ok && ex.Index == 1 && !a.Pol {
 				if ta, ok := ex.Tuple.(*ssa.TypeAssert); ok {
@@ -567,12 +577,12 @@ func checkC09(w *World) {
 				}
 			}
 		}
-		w.check(P, "R09.2", "end event", ret.Pos(), failed == 4 && isNilConst(ret.Results[0]) && isNilConst(ret.Results[2]), fmt.Sprintf("end flag true is returned after %d of the 4 node-producing arms failed", failed))
+		w.check(P, "R09.2", "end event", ret.Pos(), failed == 4 && isNilConst(ret.Results[0]) && (len(ret.Results) < 3 || isNilConst(ret.Results[2])), fmt.Sprintf("end flag true is returned after %d of the 4 node-producing arms failed", failed))
 	})
 	// every successful return is either (node, false) or (nil, true)
 	allScope(func(in ssa.Instruction) {
 		ret, ok := in.(*ssa.Return)
-		if !ok || len(ret.Results) != 3 || !isNilConst(ret.Results[2]) {
+		if !ok || !producesEvents(in.Parent()) || len(ret.Results) < 2 || (len(ret.Results) == 3 && !isNilConst(ret.Results[2])) {
 			return
 		}
 		c, isC := ret.Results[1].(*ssa.Const)
@@ -1156,12 +1166,13 @@ func (w *World) errPropagation(fn *ssa.Function, tokenMethod string, depth int) 
 // separate CharData tokens; the XPath data model has one text node for them ("as much character data as possible is
 // grouped into each text node"). An adapter that turns every CharData token into a node of its own therefore builds
 // too many text nodes. Necessary shape of any adapter that merges them: it reads ahead. Somewhere in the adapter
-//   (a) a loop calls the decoder's Token() and tests the new token for CharData, and on the matching edge stays in
-//       the loop with the bytes concatenated to what it has;
-//   (b) on the other edge the token that was read ahead is kept in a field of the adapter (nothing else survives
-//       until the next Pull), and so is an error met while reading ahead, unless it is returned at once;
-//   (c) the kept token is handed out before the decoder is asked again: the function that loads that field calls
-//       Token() only under the test that the field is empty.
+//
+//	(a) a loop calls the decoder's Token() and tests the new token for CharData, and on the matching edge stays in
+//	    the loop with the bytes concatenated to what it has;
+//	(b) on the other edge the token that was read ahead is kept in a field of the adapter (nothing else survives
+//	    until the next Pull), and so is an error met while reading ahead, unless it is returned at once;
+//	(c) the kept token is handed out before the decoder is asked again: the function that loads that field calls
+//	    Token() only under the test that the field is empty.
 func (w *World) charDataMerged(P string, pull *ssa.Function) {
 	docRule(P, "R09.9", "D+F", "adjacent character data (text, CDATA sections) forms one text node: the XML pull adapter contains a read-ahead loop that calls Decoder.Token(), concatenates while the new token is xml.CharData and otherwise stores the token read ahead (and an error met there) into a field of the adapter; the function that reads that field back calls Decoder.Token() only when the field is empty, so no token is lost or delivered out of order.")
 	var scope []*ssa.Function
@@ -1584,10 +1595,11 @@ func (w *World) namespaceUndeclared(P string) {
 // (the root node has the document element, comments and processing instructions as children, never text), but
 // encoding/xml reports it as CharData tokens like any other. An adapter that does not know whether it is inside an
 // element cannot tell the two apart. Necessary shape:
-//   (a) an integer field of the adapter is incremented where the token is an xml.StartElement and decremented where
-//       it is an xml.EndElement (the nesting depth);
-//   (b) inside the xml.CharData arm a branch compares that field with 0, and from its "depth is zero" edge some
-//       path obtains a new token without returning (the character data can be dropped there).
+//
+//	(a) an integer field of the adapter is incremented where the token is an xml.StartElement and decremented where
+//	    it is an xml.EndElement (the nesting depth);
+//	(b) inside the xml.CharData arm a branch compares that field with 0, and from its "depth is zero" edge some
+//	    path obtains a new token without returning (the character data can be dropped there).
 func (w *World) topLevelCharData(P string, pull *ssa.Function) {
 	docRule(P, "R09.11", "D+F", "character data outside the document element is not a text node: the XML pull adapter keeps a nesting depth (an integer field incremented under the xml.StartElement assertion and decremented under the xml.EndElement assertion), and in its xml.CharData arm a branch on that field compared with 0 leads, on the zero side, to a path that reads the next token without returning a node: `<?xml ...?>\\n<r/>\\n` has one child of the root, not three.")
 	var scope []*ssa.Function
@@ -1745,4 +1757,54 @@ func (w *World) topLevelCharData(P string, pull *ssa.Function) {
 	}
 	w.check(P, "R09.11", "character data at depth zero can be dropped", where, dropOK, fmt.Sprintf("in the xml.CharData arm a branch on the depth leads, on its zero side, to the next token without a return: %v", dropOK))
 	w.floor(P, "R09.11", 2)
+}
+
+// eventFns: the functions of the adapter whose (node, flag) results are pull events: Pull itself and the helpers whose
+// flag Pull (or another such helper) returns as its own end flag. A helper with the same signature whose flag means
+// something else (found/not found) is not one.
+var eventFns map[*ssa.Function]bool
+
+func computeEventFns(pull *ssa.Function, scope []*ssa.Function) {
+	eventFns = map[*ssa.Function]bool{pull: true}
+	for round := 0; round < 4; round++ {
+		for _, g := range scope {
+			if !eventFns[g] {
+				continue
+			}
+			allInstrs(g, func(in ssa.Instruction) {
+				ret, ok := in.(*ssa.Return)
+				if !ok || len(ret.Results) < 2 {
+					return
+				}
+				if ex, ok := ret.Results[1].(*ssa.Extract); ok && ex.Index == 1 {
+					if c, ok := ex.Tuple.(*ssa.Call); ok {
+						if sc := staticCallee(c); sc != nil && hasEventSignature(sc) {
+							eventFns[sc] = true
+						}
+					}
+				}
+			})
+		}
+	}
+}
+
+func producesEvents(fn *ssa.Function) bool {
+	if eventFns != nil {
+		return eventFns[fn]
+	}
+	return hasEventSignature(fn)
+}
+
+// hasEventSignature: fn returns (node.Node, bool) with or without an error.
+func hasEventSignature(fn *ssa.Function) bool {
+	res := fn.Signature.Results()
+	if res.Len() < 2 || res.Len() > 3 {
+		return false
+	}
+	n, ok := types.Unalias(res.At(0).Type()).(*types.Named)
+	if !ok || n.Obj().Pkg() == nil || n.Obj().Pkg().Path() != modPath+"/node" || n.Obj().Name() != "Node" {
+		return false
+	}
+	b, ok := res.At(1).Type().Underlying().(*types.Basic)
+	return ok && b.Kind() == types.Bool
 }
